@@ -139,6 +139,8 @@ func C16(c *Ctx) {
 	r.Rule("C16-b2", "removing parseExpr from the call graph of the evaluators leaves it acyclic, and parse<Kind> functions are called only from parseExpr")
 	r.Rule("C16-c", "the deferred handler in parse() converts the panic into the returned error list (see C11-e); addErr and addErrAt hand every error on, unconditionally, so the budget error cannot be dropped at record time")
 	r.Rule("C16-d", "newParser: if p.maxExprCnt == 0 { p.maxExprCnt = math.MaxUint64 }")
+	r.Rule("C16-e", "the budget error is delivered: no function the deferred recover handler reaches can panic, and the runtime has no panic site besides the budget and the two impossible-grammar sites (C11-h under this property)")
+	runtimePanicDiscipline(c, "C16-e")
 
 	abs := c.allAbs()
 	r.Min("semantic variants analysed", 16, len(abs))
